@@ -859,7 +859,7 @@ def run_build_case(spec: dict) -> dict:
             # who moved the record: a re-confirmation, another step's failure handling, or nobody at all
             if unchecked(changed[0], run):
                 cause = "input-unchecked-at-completion"
-            elif recorded.get(changed[0]) == last_seen[changed[0]]:
+            elif recorded.get(changed[0]) != seen[changed[0]]:
                 cause = "record-updated-during-run"
             else:
                 cause = "change-ignored"
